@@ -37,20 +37,21 @@ ASSUMPTIONS = [
 SIMPLIFY = {"neg": "", "how": "explicit", "form": "list"}
 WATCHDOG_S = {"quick": 900, "thorough": 4 * 3600}
 
-UNIVERSE = ["a", "b", "order", "android", "notebook", "foo.bar", "k-v=1"]
+# (two tag names contain an operator word delimited by punctuation: still one tag name in either dialect)
+UNIVERSE = ["a", "b", "order", "android", "notebook", "not.ready", "k-or-v=1"]
 U = c07.Universe(UNIVERSE)
 KEYWORDS = ("and", "or", "not")
 
-V1_ENUM_TAGS = ["a", "order", "notebook", "k-v=1"]
+V1_ENUM_TAGS = ["a", "order", "not.ready", "k-or-v=1"]
 V1_TAGS = UNIVERSE + ["absent", "sandbox"]
 V1_KEYWORD_TAGS = list(KEYWORDS)
 
 V2_ENUM_OPERANDS = [["tag", "a"], ["tag", "order"], ["tag", "notebook"], ["glob", "*or*"], ["glob", "and*"]]
 V2_OPERANDS = [["tag", t] for t in V1_TAGS] + [
-    ["glob", "*or*"], ["glob", "and*"], ["glob", "not*"], ["glob", "?rder"], ["glob", "*.bar"], ["glob", "k-*"],
+    ["glob", "*or*"], ["glob", "and*"], ["glob", "not*"], ["glob", "?rder"], ["glob", "*.ready"], ["glob", "k-*"],
     ["glob", "[ab]"], ["glob", "*and*"]]
 MIXED_ENUM_OPERANDS = [["tag", "a"], ["tag", "order"], ["tag", "-a"], ["tag", "~order"], ["tag", "-@notebook"],
-                       ["tag", "~@k-v=1"]]
+                       ["tag", "~@k-or-v=1"]]
 
 PROTOCOLS = ("v1", "auto")
 HOWS = ("explicit", "current", "config")
@@ -226,7 +227,8 @@ def check_v1(case):
                        ("v1:negated-at", any(lit["at"] and lit["neg"] for lit in lits)),
                        ("v1:limit", any(lit["lim"] is not None for lit in lits)),
                        ("v1:keyword-substring-tag", any(lit["t"] in ("order", "android", "notebook", "sandbox")
-                                                        for lit in lits))):
+                                                        for lit in lits)),
+                       ("v1:operator-word-inside-tag", any(lit["t"] in ("not.ready", "k-or-v=1") for lit in lits))):
         if flag:
             res.label(name)
     keyword_named = any(lit["t"] in KEYWORDS for lit in lits)
@@ -511,7 +513,7 @@ def explore(rec):
 def required_labels(tier):
     return ["v1:list", "v1:list-blanks", "v1:string", "v1:string-blanks", "protocol:v1", "protocol:auto", "how:explicit", "how:current",
             "how:config", "v1:groups=3", "v1:alternatives=3", "v1:minus", "v1:tilde", "v1:at", "v1:negated-at",
-            "v1:limit", "v1:bare-tag-with-limit", "v1:keyword-substring-tag", "excluded:both-dialects",
+            "v1:limit", "v1:bare-tag-with-limit", "v1:keyword-substring-tag", "v1:operator-word-inside-tag", "excluded:both-dialects",
             "v2-auto", "v2-auto:single-operand", "v2-auto:keyword-substring-tag", "wildcard", "form:list",
             "mixed", "mixed:and", "mixed:or", "mixed:not", "mixed:list", "mixed:tuple", "cli:mixed", "cli:via=ini",
             "cli:via=cmdline"]
